@@ -1,19 +1,19 @@
-\* C41 quick: all (context, a, b, d) on a reduced tip domain
+\* C41 quick: legacy density resolution, all (deep context, a, b, d) over sparse ratio tips
 CONSTANT MaxBN = 1
-CONSTANT MaxVRF = 1
-CONSTANT MaxSlot = 2
-CONSTANT ForkSlots = {0}
-CONSTANT Windows = {0, 1}
-CONSTANT DepthSet = "min"
+CONSTANT MaxVRF = 0
+CONSTANT MaxSlot = 1
+CONSTANT ForkSlots = {1}
+CONSTANT Windows = {0}
+CONSTANT DepthSet = "deep"
 CONSTANT TrimShallow = TRUE
 CONSTANT Arity = 3
 CONSTANT SampleMod = 11
-CONSTANT TipKind = "slots"
-CONSTANT RBlocks = {}
-CONSTANT SpanBases = {}
-CONSTANT SpanMults = {}
-CONSTANT SpanOffsets = {}
-CONSTANT ResRoot = 1
+CONSTANT TipKind = "ratio"
+CONSTANT RBlocks = {1, 2}
+CONSTANT SpanBases = {1000000}
+CONSTANT SpanMults = {1, 2}
+CONSTANT SpanOffsets = {0, 1}
+CONSTANT ResRoot = 31623
 INIT Init
 NEXT Next
 INVARIANT Reflexive
@@ -24,7 +24,6 @@ INVARIANT LongerWins
 INVARIANT LowerVrfWins
 INVARIANT MissingVrfLoses
 INVARIANT EqualIffSameKey
-INVARIANT DeepDensityFirst
 INVARIANT DeepDenserWins
 INVARIANT DenserIsStrict
 INVARIANT DensityOrderIsDenser
